@@ -31,7 +31,8 @@ def extra(exp, obs, wants, rot):
     if dt is None or exp['result'] != 'failed':
         return bad
     try:
-        text = '\n'.join(dt.repr_failure())
+        import re
+        text = re.sub(r'\x1b\[[0-9;]*m', '', '\n'.join(dt.repr_failure()))        # colours are rendering, not content
     except Exception as ex:
         return [('repr_failure', 'rendered text', 'raised %r' % (ex,))]
     if obs.get('exc_type') and obs['exc_type'] not in text:
